@@ -135,6 +135,12 @@ type blobUploadState struct {
 
 func (s *Server) blobUploadDelete(repoStr, sessionID string) http.HandlerFunc {
 	return func(w http.ResponseWriter, r *http.Request) {
+		if *s.conf.Storage.ReadOnly {
+			// a read-only store has no upload sessions
+			w.WriteHeader(http.StatusForbidden)
+			_ = types.ErrRespJSON(w, types.ErrInfoDenied("repository is read-only"))
+			return
+		}
 		repo, err := s.store.RepoGet(r.Context(), repoStr)
 		if err != nil {
 			if errors.Is(err, types.ErrRepoNotAllowed) {
@@ -407,6 +413,12 @@ func (s *Server) blobUploadMount(repoSrcStr, repoTgtStr, digStr string, w http.R
 
 func (s *Server) blobUploadPatch(repoStr, sessionID string) http.HandlerFunc {
 	return func(w http.ResponseWriter, r *http.Request) {
+		if *s.conf.Storage.ReadOnly {
+			// a read-only store has no upload sessions
+			w.WriteHeader(http.StatusForbidden)
+			_ = types.ErrRespJSON(w, types.ErrInfoDenied("repository is read-only"))
+			return
+		}
 		repo, err := s.store.RepoGet(r.Context(), repoStr)
 		if err != nil {
 			if errors.Is(err, types.ErrRepoNotAllowed) {
@@ -494,6 +506,12 @@ func (s *Server) blobUploadPatch(repoStr, sessionID string) http.HandlerFunc {
 
 func (s *Server) blobUploadPut(repoStr, sessionID string) http.HandlerFunc {
 	return func(w http.ResponseWriter, r *http.Request) {
+		if *s.conf.Storage.ReadOnly {
+			// a read-only store has no upload sessions
+			w.WriteHeader(http.StatusForbidden)
+			_ = types.ErrRespJSON(w, types.ErrInfoDenied("repository is read-only"))
+			return
+		}
 		repo, err := s.store.RepoGet(r.Context(), repoStr)
 		if err != nil {
 			if errors.Is(err, types.ErrRepoNotAllowed) {
